@@ -103,7 +103,9 @@ def record_cost_matrix(positions, scoring_scheme, result):
 
 
 def install_cost_matrix_recorder():
-    fn = PairwiseBasedAlgorithm.__dict__["pairwise_cost_matrix"]
+    fn = PairwiseBasedAlgorithm.__dict__.get("pairwise_cost_matrix")
+    if fn is None:
+        return
     raw = fn.__func__ if isinstance(fn, staticmethod) else fn
     if getattr(raw, "_vf_wrapped", False):
         return
